@@ -540,8 +540,20 @@ class Sim:
         op = st["op"]
         if op == "evaluate":
             a = np.array(st["cuts"], dtype=st.get("cuts_dtype", "int64"))
-            if st.get("cuts_1d") and a.ndim == 2 and a.shape[0] == 1:
+            lay = st.get("cuts_layout")
+            if lay == "view" and a.ndim == 2:
+                # non-contiguous view into a larger array
+                big = np.zeros((a.shape[0] * 2, a.shape[1] + 1), dtype=a.dtype)
+                big[::2, 1:] = a
+                a = big[::2, 1:]
+            elif lay == "fortran" and a.ndim == 2:
+                a = np.asfortranarray(a)
+            elif lay == "list":
+                a = [list(map(int, row)) for row in st["cuts"]] if st.get("cuts_dtype", "int64") != "float64" else a
+            if st.get("cuts_1d") and not isinstance(a, list) and a.ndim == 2 and a.shape[0] == 1:
                 a = a[0]
+            if lay == "readonly" and not isinstance(a, list):
+                a.flags.writeable = False
             return a, None, "cuts", False
         if op in ("update", "update_predict"):
             like = self.ds_spec[st["like"]]
